@@ -142,6 +142,19 @@ func kindAllowed(pf PropFunc, kind string) bool {
 	if len(pf.Kinds) == 0 {
 		return true
 	}
+	onlyExcl := true
+	for _, k := range pf.Kinds {
+		if strings.HasPrefix(k, "!") {
+			if strings.HasPrefix(kind, k[1:]) {
+				return false
+			}
+		} else {
+			onlyExcl = false
+		}
+	}
+	if onlyExcl {
+		return true
+	}
 	for _, k := range pf.Kinds {
 		if k == "safety" {
 			switch kind {
@@ -178,6 +191,11 @@ func verifyFunctions(P *Program, funcs []PropFunc, solver *Solver, coverSolver *
 		if fn.Blocks == nil {
 			genErrs = append(genErrs, "function has no body: "+pf.Key)
 			continue
+		}
+		if ct := P.contractFor(fn); ct != nil && ct.ModNothing && !ct.Trusted {
+			for _, b := range P.checkFrame(fn, 0) {
+				genErrs = append(genErrs, pf.Key+": 'modifies nothing' is not justified: "+b)
+			}
 		}
 		v, err := generate(P, fn)
 		if err != nil {
